@@ -33,8 +33,20 @@ class _Sub(ast.NodeTransformer):
         return node
 
 
+class _Beta(ast.NodeTransformer):
+    """(lambda x: body)(arg)  ->  body[x := arg]   (arises when a callback parameter is substituted by the lambda passed for it)"""
+
+    def visit_Call(self, node):
+        self.generic_visit(node)
+        f = node.func
+        if isinstance(f, ast.Lambda) and not node.keywords and len(node.args) == len(f.args.args) and not f.args.vararg and not f.args.kwarg:
+            env = {a.arg: arg for a, arg in zip(f.args.args, node.args)}
+            return ast.copy_location(_Sub(env).visit(_fcopy(f.body)), node)
+        return node
+
+
 def _subst(node, env):
-    return _Sub(env).visit(_fcopy(node))
+    return _Beta().visit(_Sub(env).visit(_fcopy(node)))
 
 
 def _has(node_or_list, types):
@@ -63,7 +75,7 @@ def _locals_of(fd):
     return out
 
 
-def _param_env(fd, call, is_method, counter):
+def _param_env(fd, call, is_method, counter, keep=()):
     """parameter -> argument expression (defaults for missing ones); None when the call shape is not simple"""
     params = [a.arg for a in fd.args.args]
     if is_method and params and params[0] == 'self':
@@ -86,11 +98,16 @@ def _param_env(fd, call, is_method, counter):
         return None
     # helper locals get fresh names
     assigned = _locals_of(fd)
-    for loc in assigned:
+    pre = []
+    for loc in sorted(assigned):
+        # helper locals keep their spelling (extracted code usually keeps the names it had in the caller) unless the caller
+        # binds the same name elsewhere
+        fresh = ast.Name(id=loc if loc in keep else '__h{}_{}'.format(counter, loc), ctx=ast.Load())
         if loc in env:
-            # a parameter that the helper rebinds: give it a local copy initialised from the argument
-            return None
-        env[loc] = ast.Name(id='__h{}_{}'.format(counter, loc), ctx=ast.Load())
+            # a parameter that the helper rebinds: it becomes a local copy initialised from the argument
+            pre.append(ast.Assign(targets=[ast.Name(id=fresh.id, ctx=ast.Store())], value=env[loc]))
+        env[loc] = fresh
+    env['__pre__'] = pre
     return env
 
 
@@ -154,6 +171,7 @@ class Inliner(object):
         self.ref = ref           # {'mod:Qual': {'names': [...]}}
         self.counter = 0
         self.log = []
+        self.caller_names = set()
 
     # ---- which helpers are new
     def new_helpers(self, mname, mod):
@@ -196,6 +214,14 @@ class Inliner(object):
         table = dict(funcs)
         table.update(nested)
         table.pop(fd.name, None)
+        # closures handed to a new helper as callbacks (JS: hoisted anonymous functions) are called by the inlined body
+        if table or methods:
+            closures = {st.name: st for st in ast.walk(fd) if isinstance(st, ast.FunctionDef) and st is not fd and st.name.startswith('__fn_')}
+            for c in ast.walk(fd):
+                if isinstance(c, ast.Call) and self._resolve(c, table, methods)[0] is not None:
+                    for a in c.args:
+                        if isinstance(a, ast.Name) and a.id in closures:
+                            table[a.id] = closures[a.id]
         if not table and not methods:
             return
         for _ in range(MAX_DEPTH):
@@ -218,6 +244,7 @@ class Inliner(object):
 
     def _block_owner(self, owner, table, methods, where):
         changed = False
+        self.caller_names = _locals_of(owner) | {a.arg for a in owner.args.args}
         for node in list(ast.walk(owner)):
             if node is not owner and isinstance(node, (ast.FunctionDef, ast.ClassDef)) and node.name in table:
                 continue
@@ -272,7 +299,8 @@ class Inliner(object):
                 env = _param_env(fd, hdr, is_m, self.counter)
                 if env is None:
                     return None
-                body = [_subst(s_, env) for s_ in fd.body if not (isinstance(s_, ast.Expr) and isinstance(s_.value, ast.Constant))]
+                pre_stmts = env.pop('__pre__')
+                body = pre_stmts + [_subst(s_, env) for s_ in fd.body if not (isinstance(s_, ast.Expr) and isinstance(s_.value, ast.Constant))]
                 tmp = '__inl{}'.format(self.counter)
                 pre = _as_statements(body, ast.Name(id=tmp, ctx=ast.Store()), False)
                 st.iter = ast.Name(id=tmp, ctx=ast.Load())
@@ -300,14 +328,39 @@ class Inliner(object):
         # 2. statement-level for the recognised call sites
         call = calls[0]
         fd, is_m = self._resolve(call, table, methods)
+        # the call is the element of a list comprehension: write the comprehension as the loop it abbreviates first
+        for lc in [x for x in ast.walk(st) if isinstance(x, ast.ListComp) and len(x.generators) == 1 and not x.generators[0].ifs and any(y is call for y in ast.walk(x.elt))]:
+            self.counter += 1
+            acc = '__lc{}'.format(self.counter)
+            loop = ast.For(target=lc.generators[0].target, iter=lc.generators[0].iter, orelse=[], body=[ast.Expr(value=ast.Call(func=ast.Attribute(value=ast.Name(id=acc, ctx=ast.Load()), attr='append', ctx=ast.Load()), args=[lc.elt], keywords=[]))])
+            init = ast.Assign(targets=[ast.Name(id=acc, ctx=ast.Store())], value=ast.List(elts=[], ctx=ast.Load()))
+
+            class Rp(ast.NodeTransformer):
+                def visit_ListComp(self, node):
+                    if node is lc:
+                        return ast.Name(id=acc, ctx=ast.Load())
+                    return self.generic_visit(node)
+            st2 = Rp().visit(st)
+            for s_ in (init, loop, st2):
+                for x in ast.walk(s_):
+                    if not hasattr(x, 'lineno'):
+                        x.lineno, x.col_offset, x.end_lineno, x.end_col_offset = getattr(st, 'lineno', 0), 0, getattr(st, 'end_lineno', 0), 0
+                    x.src_file = getattr(st, 'src_file', None)
+            self.log.append('{}: list comprehension around a call of new helper {}() at line {} written as a loop'.format(where, fd.name, getattr(st, 'lineno', '?')))
+            return [init, loop, st2]
         tail_call = isinstance(st, ast.Return) and st.value is call      # `return h(..)`: the helper's returns stay returns
         if (_returns_in_loops_or_try(fd) and not tail_call) or _has(fd, (ast.Yield, ast.YieldFrom)):
             return None
         self.counter += 1
-        env = _param_env(fd, call, is_m, self.counter)
+        targets = set()
+        if isinstance(st, ast.Assign):
+            targets = {x.id for t_ in st.targets for x in ast.walk(t_) if isinstance(x, ast.Name)}
+        keep = (_locals_of(fd) - self.caller_names) | (_locals_of(fd) & targets)
+        env = _param_env(fd, call, is_m, self.counter, keep)
         if env is None:
             return None
-        body = [_subst(s, env) for s in fd.body if not (isinstance(s, ast.Expr) and isinstance(s.value, ast.Constant))]
+        pre_stmts = env.pop('__pre__')
+        body = pre_stmts + [_subst(s, env) for s in fd.body if not (isinstance(s, ast.Expr) and isinstance(s.value, ast.Constant))]
         for b in body:
             ast.fix_missing_locations(b)
 
@@ -371,7 +424,7 @@ class Inliner(object):
                     return n
                 inl.counter += 1
                 env = _param_env(fd, n, is_m, inl.counter)
-                if env is None:
+                if env is None or env.pop('__pre__'):
                     return n
                 locals_ = _locals_of(fd)
                 penv = {k: v for k, v in env.items() if k not in locals_}
@@ -393,7 +446,74 @@ class Inliner(object):
         return new
 
 
+def flatten_new_bases(port, ref):
+    """Undoing "extract base class": a class of the reference that now inherits from a class the reference did not have gets, in the
+    analysed copy, its own copies of the methods it inherits from that base (nearest definition wins), and calls through
+    class-level function attributes (`pick = staticmethod(min)` ... `self.pick(a, b)`) are resolved to the function.  The new base
+    classes themselves are marked so that role inventories do not count them."""
+    log = []
+    if not ref:
+        return log
+    for mname, mod in port.modules.items():
+        classes = {st.name: st for st in mod.body if isinstance(st, ast.ClassDef)}
+        known = {c for c in classes if any(k.startswith('{}:{}.'.format(mname, c)) for k in ref)}
+        new = set(classes) - known
+        for c in new:
+            classes[c].verif_new_base = any(any(isinstance(b, ast.Name) and b.id == c for b in k.bases) for k in classes.values())
+
+        def mro_new(cls, depth=0):
+            out = []
+            if depth > 4:
+                return out
+            for b in cls.bases:
+                if isinstance(b, ast.Name) and b.id in new:
+                    out.append(classes[b.id])
+                    out.extend(mro_new(classes[b.id], depth + 1))
+            return out
+        for cname in sorted(known):
+            cls = classes[cname]
+            bases = mro_new(cls)
+            if not bases:
+                continue
+            own = {m.name for m in cls.body if isinstance(m, ast.FunctionDef)}
+            attrs = {}
+            for src in [cls] + bases:
+                for st in src.body:
+                    if isinstance(st, ast.Assign) and len(st.targets) == 1 and isinstance(st.targets[0], ast.Name) and st.targets[0].id not in attrs:
+                        v = st.value
+                        if isinstance(v, ast.Call) and isinstance(v.func, ast.Name) and v.func.id == 'staticmethod' and len(v.args) == 1:
+                            v = v.args[0]
+                        if isinstance(v, (ast.Name, ast.Attribute)):
+                            attrs[st.targets[0].id] = v
+            copied = []
+            for b in bases:
+                for m in b.body:
+                    if isinstance(m, ast.FunctionDef) and m.name not in own:
+                        own.add(m.name)
+                        twin = _fcopy(m)
+                        for x in ast.walk(twin):
+                            x.src_file = getattr(m, 'src_file', None)
+                        cls.body.append(twin)
+                        copied.append('{}.{}'.format(b.name, m.name))
+            if attrs:
+                class R(ast.NodeTransformer):
+                    def visit_Attribute(self, node):
+                        self.generic_visit(node)
+                        if isinstance(node.value, ast.Name) and node.value.id == 'self' and node.attr in attrs and isinstance(node.ctx, ast.Load):
+                            return ast.copy_location(_fcopy(attrs[node.attr]), node)
+                        return node
+                for m in cls.body:
+                    if isinstance(m, ast.FunctionDef):
+                        R().visit(m)
+            # base-class attribute lines of the subclass are not state of its own
+            cls.body = [st for st in cls.body if not (isinstance(st, ast.Assign) and len(st.targets) == 1 and isinstance(st.targets[0], ast.Name) and st.targets[0].id in attrs)] or [ast.Pass()]
+            if copied:
+                log.append('{}:{} inherits from new base class(es) {}: {} copied into the analysed class'.format(mname, cname, ', '.join(b.name for b in bases), ', '.join(copied)))
+    return log
+
+
 def inline_new_helpers(port):
     from . import alpha
     ref = alpha.load_ref().get(port.name, {})
-    return Inliner(port, ref).run()
+    log = flatten_new_bases(port, ref)
+    return log + Inliner(port, ref).run()
